@@ -95,27 +95,58 @@ impl ADict {
         self.cats.iter().position(|c| c.name == "SPACE").map(|i| i as i64).unwrap_or(-1)
     }
 
+    /// The text of char.def.  The WRITING STYLE varies from dictionary to dictionary (it is derived
+    /// from the content, so that every rendering of one dictionary is the same text): hexadecimal
+    /// digits in upper or lower case, zero-padded to 4 or 5 digits or not at all; blanks, tabs or
+    /// double blanks between the columns; trailing comments on category lines (as ipadic's char.def
+    /// has them); blank and comment lines in between.
     pub fn render_char_def(&self) -> String {
+        let mut h: u32 = 2166136261;
+        for r in &self.ranges {
+            for x in [r.lo, r.hi, r.cs.len() as u32] {
+                h = (h ^ x).wrapping_mul(16777619);
+            }
+        }
+        for c in &self.cats {
+            h = (h ^ (c.length + 2 * c.group as u32 + 4 * c.invoke as u32)).wrapping_mul(16777619);
+        }
+        let hex = |v: u32| -> String {
+            match h % 3 {
+                0 => format!("0x{:04X}", v),
+                1 => format!("0x{:x}", v),
+                _ => format!("0x{:05X}", v),
+            }
+        };
+        let sep = ["\x20", "\t", "\x20\x20"][((h / 3) % 3) as usize];
+        let cat_comment = (h / 9) % 2 == 1;
+        let spacer = (h / 18) % 2 == 1;
         let mut out = String::new();
         // category ids are assigned by first appearance, DEFAULT is always 0
-        let mut lines: Vec<String> = self.cats[1..]
-            .iter()
-            .map(|c| format!("{} {} {} {}", c.name, c.invoke, c.group, c.length))
-            .collect();
+        let line = |name: &str, i: u8, g: u8, l: u32| -> String {
+            let mut s = [name.to_string(), i.to_string(), g.to_string(), l.to_string()].join(sep);
+            if cat_comment {
+                s.push_str("  # a category");
+            }
+            s
+        };
+        let mut lines: Vec<String> = self.cats[1..].iter().map(|c| line(&c.name, c.invoke, c.group, c.length)).collect();
         let d = &self.cats[0];
         let pos = self.default_line_pos.min(lines.len());
-        lines.insert(pos, format!("DEFAULT {} {} {}", d.invoke, d.group, d.length));
-        for l in lines {
-            out.push_str(&l);
+        lines.insert(pos, line("DEFAULT", d.invoke, d.group, d.length));
+        for (k, l) in lines.iter().enumerate() {
+            out.push_str(l);
             out.push('\n');
+            if spacer && k == 0 {
+                out.push_str("\n#   a comment line, then a blank one\n\n");
+            }
         }
         out.push_str("# ranges\n");
         for r in &self.ranges {
             let names: Vec<&str> = r.cs.iter().map(|&i| self.cats[i].name.as_str()).collect();
             if r.lo == r.hi {
-                out.push_str(&format!("0x{:04X} {}\n", r.lo, names.join(" ")));
+                out.push_str(&format!("{}{}{}\n", hex(r.lo), sep, names.join(sep)));
             } else {
-                out.push_str(&format!("0x{:04X}..0x{:04X} {} # c\n", r.lo, r.hi, names.join(" ")));
+                out.push_str(&format!("{}..{}{}{} # c\n", hex(r.lo), hex(r.hi), sep, names.join(sep)));
             }
         }
         out
